@@ -5,9 +5,7 @@ pub mod util;
 pub mod c01;
 pub mod c02;
 pub mod c03;
-#[cfg(feature = "full")]
 pub mod c04;
-#[cfg(feature = "full")]
 pub mod c06;
 pub mod c07;
 pub mod c08;
@@ -37,9 +35,7 @@ pub fn run(ctx: &Ctx) -> Option<i32> {
     Some(match ctx.args.prop.as_str() {
         "C01" => c01::run(ctx),
         "C02" => c02::run(ctx),
-        #[cfg(feature = "full")]
         "C04" => c04::run(ctx),
-        #[cfg(feature = "full")]
         "C06" => c06::run(ctx),
         "C03" => c03::run(ctx),
         "C05" => c05::run(ctx),
